@@ -111,7 +111,7 @@ def run(ctx, rep):
     for t, (fn, paths) in sorted(m.dumpers.items(), key=lambda kv: kv[0].__name__):
         seen = set()
         for val in m.samples(t):
-            p = B.select_path(ctx, paths, val)
+            p = B.select_path(ctx, paths, val, A.params(fn.node)[0])
             rows += 1
             tag, fmt = first_tag_fmt(p)
             if t in (bytes, tuple):
